@@ -620,6 +620,24 @@ func (b *builder) call(c *ssa.Call) *Expr {
 		}
 		e.Args = append(e.Args, b.expr(a))
 	}
+	// the getter of a content-validated memo: a hit is the remembered function of the witness the caller presents
+	if sc := cc.StaticCallee(); sc != nil && b.w.memoGet != nil {
+		if mg := b.w.memoGet[sc]; mg != nil && mg.Witness < len(e.Args) {
+			n := sc.Signature.Results().Len()
+			t := &Expr{Op: "tuple"}
+			for i := 0; i < n; i++ {
+				if f := mg.Results[i]; f != nil {
+					t.Args = append(t.Args, Replace(f, &Expr{Op: "const", Name: MemoMarker}, e.Args[mg.Witness]))
+				} else {
+					t.Args = append(t.Args, &Expr{Op: "res", Name: fmt.Sprint(i), Args: []*Expr{e}})
+				}
+			}
+			if n == 1 {
+				return t.Args[0]
+			}
+			return t
+		}
+	}
 	// a plumbing helper (in-scope, effect-free, outside the types packages) is transparent: the origin
 	// of its result is the origin of what it returns, in the caller's terms
 	if e.Callee != nil && b.w.Plumbing(e.Callee) {
